@@ -63,6 +63,21 @@ var watched = map[string]bool{
 	"taskx.taskCallback.result": true, "taskx.taskCallback.err": true, "taskx.taskCallback.isHandled": true,
 }
 
+// PkgCtx is what a translator plugin gets for one parsed and type-checked package of the repository
+// (absent from the map when the package did not parse).
+type PkgCtx struct {
+	Pkg   string
+	Fset  *token.FileSet
+	Files []*ast.File
+	Info  *types.Info
+}
+
+// plugins are further source-to-Lean translators (one per Go file `minigo_<family>.go`, registered from its
+// init()); each is called once per run with every parsed package and the output directory lean/Got/Generated and
+// must (re)write its generated file(s) with writeIfChanged — also when its package is missing, with a body that
+// makes the obligations fail rather than keeping an old translation.
+var plugins []func(ctxs map[string]*PkgCtx, outLean string)
+
 func main() {
 	repo := flag.String("repo", "/repo", "repository root")
 	outJSON := flag.String("json", "", "facts.json output")
@@ -71,6 +86,7 @@ func main() {
 
 	facts := Facts{Consts: map[string]string{}, Funcs: map[string]FuncFact{}}
 	miniDefs := map[string][]string{}
+	ctxs := map[string]*PkgCtx{}
 	fset := token.NewFileSet()
 	imp := importer.ForCompiler(fset, "source", nil)
 	for _, p := range pkgs {
@@ -106,6 +122,7 @@ func main() {
 					}
 				}
 			}
+			ctxs[p] = &PkgCtx{Pkg: p, Fset: fset, Files: files, Info: info}
 			for _, tg := range miniTargets {
 				if tg.pkg != p {
 					continue
@@ -172,6 +189,11 @@ func main() {
 			}
 			name := "Ast" + strings.ToUpper(tg.pkg[:1]) + tg.pkg[1:] + ".lean"
 			writeIfChanged(filepath.Join(*outLean, name), []byte(leanAstFile(tg.pkg, defs)))
+		}
+	}
+	if *outLean != "" {
+		for _, pl := range plugins {
+			pl(ctxs, *outLean)
 		}
 	}
 	if len(facts.Errors) > 0 {
